@@ -2,6 +2,7 @@ import Mp.MarkProofs
 import Mp.ProofsG
 import Mp.NullProofs
 import Mp.NumeralProofs
+import Mp.MarkIrrel
 /-! C19 — property theorems (proved in the imported modules; statements are checked there, axioms audited here). -/
 #print axioms Mp.propagate
 #print axioms Mp.missing_marked_key
@@ -18,3 +19,8 @@ import Mp.NumeralProofs
 #print axioms Mp.Dec.ofString_alphabet
 #print axioms Mp.Dec.not_numeral_of_foreign_byte
 #print axioms Mp.Dec.empty_not_numeral
+#print axioms Mp.sParts_append
+#print axioms Mp.sParts_prev_irrel
+#print axioms Mp.mark_irrelevant_head
+#print axioms Mp.mark_irrelevant_on_present_key
+#print axioms Mp.stopped_before
